@@ -157,6 +157,8 @@ def run(ctx):
     ctx.mc("MC_Stencil", "MC_Stencil_thorough.cfg" if thorough else "MC_Stencil_quick.cfg")
     ctx.mc("MC_Cumsum", "MC_Cumsum_thorough.cfg" if thorough else "MC_Cumsum_quick.cfg")
     ctx.mc("MC_Cumsum", "MC_Cumsum_refute.cfg", expect_violation="CommutesUnguarded")
+    ctx.mc("MC_Stencil", "MC_Stencil_specials.cfg")           # running sums with infinities among the data
+    ctx.mc("MC_Stencil", "MC_Stencil_specials_refute.cfg", expect_violation="InverseAlways")     # inf - inf: the inverse needs finite data
     rng = random.Random(ctx.seed * 104729 + 9)
     k = 20 if thorough else 1
     cases, cid = [], 0
